@@ -151,11 +151,14 @@ def stripTrailingBlank (text pfx : Str) : Str :=
 
 def renderCodeLines (st : RState) (content : Str) (lang extra : Str) (isFenced : Bool)
     (fch : Char) (flen : Nat) : Str :=
-  let content := rstripNl content
+  let raw := content
+  -- `removesuffix("\n")`: only the newline that ends the last line
+  let content := if raw.getLast? == some '\n' then raw.dropLast else raw
   let extraText : Str := if extra.isEmpty then [] else ' ' :: extra
   let langText : Str := if !isFenced || lang.isEmpty then [] else lang ++ extraText
   let fence := List.replicate (max flen (minFenceLength content fch)) fch
-  let body := (pySplitlines content).map fun l => if l.isEmpty then rstrip st.snd else st.snd ++ l
+  let body := (if raw.isEmpty then [] else pySplitNl content).map fun l =>
+    if l.isEmpty then rstrip st.snd else st.snd ++ l
   joinWith ['\n'] ([st.pfx ++ fence ++ langText] ++ body ++ [st.snd ++ fence]) ++ ['\n']
 
 def normalizeDelim (d : Str) : Str :=
